@@ -532,5 +532,8 @@ func init() {
 		checkWriterGates(p, r)
 		checkRestartCap(p, r)
 		r.Engines = []string{"pathsim", "dtable"}
+		r.Explanation = "Structural necessary conditions of the round trip, decided on every path by abstract simulation: a record whose payload fields are all empty (a deletion) reaches the block writer with its payload untouched (the log message normalisation must not turn a tombstone into a live entry); IsDeletion is true exactly when every payload field is empty (all valuations of the field-emptiness atoms); AddRef writes only update indices inside the declared limits; Writer.add lets a record reach the block writer only if its key is greater than the previous key; a restart point is recorded only while the 16-bit restart count has room and only for keys stored without prefix. Agreement of the encode/decode wire sequences with each other and with the format is decided under C14, the update-index delta under C11."
+		r.NotDecided = []string{"that the bytes of a given record set read back equal (block boundaries, padding, offsets, zlib stream length, varint arithmetic)", "reflog blocks larger than the block size"}
+		r.Assumptions = []string{"record.key() is pure"}
 	}
 }
